@@ -633,7 +633,7 @@ func monC01(c *drv.Ctx) {
 	})
 
 	// (2) random sequences of all kinds
-	c.Stage("sequences", c.Pick(15000, 1000000), false, func(cs *drv.Case) {
+	c.Stage("sequences", c.Pick(150000, 2000000), false, func(cs *drv.Case) {
 		r := cs.R
 		n := 1 + r.Intn(40)
 		vals := make([]cval, n)
